@@ -218,9 +218,39 @@ func s3(p *core.Program, a *spec.Anchors, r *core.Report, writes, reads bool) {
 			}
 		}
 	}
+	if writes {
+		// who may call ResetGradContext: only the library's user.  A library function that resets a tensor it
+		// was handed changes the tracking state, gradient and graph edges of a caller-owned tensor.
+		nCalls := 0
+		for _, fn := range p.ModuleFunctions() {
+			for _, b := range fn.Blocks {
+				for _, in := range b.Instrs {
+					ci, ok := in.(ssa.CallInstruction)
+					if !ok {
+						continue
+					}
+					nCalls++
+					cc := ci.Common()
+					name := ""
+					if cc.IsInvoke() {
+						name = cc.Method.Name()
+					} else if callee := cc.StaticCallee(); callee != nil && callee.Signature.Recv() != nil {
+						name = callee.Name()
+					}
+					if name == "ResetGradContext" {
+						r.Violate("S3.reset-call", core.FuncKey(fn), "calls-ResetGradContext", p.Pos(in.Pos()),
+							"library code calls ResetGradContext on a tensor: resetting is the caller's decision; doing it inside an operation, layer, loss or optimizer changes the tracking state, gradient and graph edges of a tensor the caller owns",
+							"a tracked target / operand silently loses its gradient path after being passed to the library")
+					}
+				}
+			}
+		}
+		r.Count("S3.call_sites_scanned", nCalls)
+		r.Min("S3.call_sites_scanned", 300)
+	}
 	if !writes {
 		r.Count("S3.gctx_reads", nReads)
-		r.Min("S3.gctx_reads", 2)
+		r.Min("S3.gctx_reads", 1)
 		return
 	}
 	// address-of field passed on (e.g. &t.data handed to a filler): treat as a write of that field
@@ -322,7 +352,7 @@ func s3(p *core.Program, a *spec.Anchors, r *core.Report, writes, reads bool) {
 	r.Count("S3.gctx_reads", nReads)
 	r.Min("S3.gradcontext_field_stores", 4)
 	r.Min("S3.tensor_field_stores", 20)
-	r.Min("S3.gctx_reads", 2)
+	r.Min("S3.gctx_reads", 1)
 }
 
 // writesThrough reports whether the address is (possibly) written by what it is passed to: true when it is
